@@ -747,6 +747,34 @@ def check_sweep(acc, pendulum, loc, start, ndays):
                     acc.mismatch("Interval.in_words", f"{loc}/native-date-endpoints", dict(case, endpoints=lbl), r, e)
 
 
+def check_fixed_offset_pairs(acc, pendulum, loc):
+    """Two values in DIFFERENT fixed-offset zones whose wall clocks fall on different dates (mirror-image offsets below one hour,
+    offsets that differ only in their seconds, ordinary ones): the phrase counts the elapsed time between the two instants."""
+    d = data(loc)
+    base = calref.days_from_civil(2024, 1, 1) * 86400
+    for oa, ob in ((-1800, 1800), (900, -900), (-3540, 3540), (-60, 60), (-1800, 3600), (19800, -16200), (-1800, 1800 + 86400 // 96)):
+        for wa, gap in ((23 * 3600 + 40 * 60, 1800), (23 * 3600 + 40 * 60, 5400), (23 * 3600 + 59 * 60, 16 * 60), (22 * 3600, 3 * 3600 + 7)):
+            ia = (base + wa - oa) * US
+            ib = ia + gap * US
+            a = obs.utc_dt(pendulum, ia).in_timezone(pendulum.FixedTimezone(oa))
+            b = obs.utc_dt(pendulum, ib).in_timezone(pendulum.FixedTimezone(ob))
+            comps = ref_comps(ia, ib)
+            case = {"kind": "fixedpair", "loc": loc, "oa": oa, "ob": ob, "wa": wa, "gap": gap}
+            acc.c["states"] += 1
+            for recv, other, future in ((a, b, False), (b, a, True)):
+                for absolute in (False, True):
+                    r = basic(acc, "diff_for_humans", f"{loc}/fixed-offset-pair", case, lambda: recv.diff_for_humans(other, absolute, locale=loc))
+                    if r is None:
+                        continue
+                    ok = acceptable(d, comps, False, future, absolute)
+                    if ok and r not in ok:
+                        acc.mismatch("diff_for_humans", f"{loc}/fixed-offset-pair/phrase", dict(case, future=future, abs=absolute), r, sorted(ok))
+            w = basic(acc, "Interval.in_words", f"{loc}/fixed-offset-pair", case, lambda: (b - a).in_words(locale=loc))
+            e = expected_words(d, list(zip(UNITS, comps)), (ib - ia) % US)
+            if w is not None and e is not None and w != e:
+                acc.mismatch("Interval.in_words", f"{loc}/fixed-offset-pair/phrase", case, w, e)
+
+
 def check_fold_pair(acc, pendulum, loc):
     """A reference inside a repeated hour, first as its earlier then as its later occurrence (equal wall clocks, same
     tzinfo - they compare equal natively): 30 and 90 minutes after 01:00 EDT."""
@@ -852,6 +880,8 @@ def run_shard(shard):
                     check_same_instant(acc, pendulum, loc, tuple(fa), tuple(fb))
             with worker.guarded(acc, "diff_for_humans", {"kind": "foldpair", "loc": loc}):
                 check_fold_pair(acc, pendulum, loc)
+            with worker.guarded(acc, "diff_for_humans", {"kind": "fixedpair", "loc": loc}):
+                check_fixed_offset_pairs(acc, pendulum, loc)
             for z in ("Europe/Paris", "America/New_York", "Australia/Lord_Howe"):
                 trs = [tr for tr in seeds.zone_transitions(z) if 1577836800 < tr[0] < 1640995200]
                 for t, _ob, _oa in trs:
@@ -899,6 +929,8 @@ def replay_case(case, acc):
         check_direction_data(acc, case["loc"])
     elif k == "mer":
         check_meridiem_hours(acc, pendulum, case["loc"])
+    elif k == "fixedpair":
+        check_fixed_offset_pairs(acc, pendulum, case["loc"])
     elif k == "timenow":
         check_time_now(acc, pendulum, case["loc"])
     elif k == "tables":
